@@ -29,6 +29,10 @@ type Route struct {
 	Remove []string `json:"remove,omitempty"`
 	// RemoveAt: the removal happens just before request number RemoveAt (0: before the first one)
 	RemoveAt int `json:"remove_at,omitempty"`
+	// Add: methods registered on the pattern later, just before request number AddAt (>= 1): a route that gains a
+	// method between two requests
+	Add   []string `json:"add,omitempty"`
+	AddAt int      `json:"add_at,omitempty"`
 	// Panics: the route's handler panics; the router then has WithStatusRecovery(500), which answers through the
 	// same header map the CORS headers were written to
 	Panics bool `json:"panics,omitempty"`
@@ -147,6 +151,16 @@ func Gen(t *rapid.T) Case {
 		}
 		if len(rt.Remove) == 0 {
 			rt.Panics = rapid.IntRange(0, 5).Draw(t, "rpanics") == 0
+		}
+		if rt.Methods != nil && rapid.IntRange(0, 3).Draw(t, "radd") == 0 {
+			var free []string
+			for _, m := range []string{"GET", "POST", "DELETE", "PUT", "PATCH"} {
+				if !contains(rt.Methods, m) {
+					free = append(free, m)
+				}
+			}
+			rt.Add = rapid.Permutation(free).Draw(t, "raddMs")[:rapid.IntRange(1, 2).Draw(t, "raddN")]
+			rt.AddAt = rapid.IntRange(1, 7).Draw(t, "raddAt")
 		}
 		c.Routes = append(c.Routes, rt)
 	}
@@ -278,6 +292,8 @@ type World struct {
 
 	c    Case
 	done map[int]bool // removals already applied
+	added map[int]bool
+	env   *rig.Env
 	sib  http.Handler
 }
 
@@ -386,18 +402,34 @@ func Build(c Case) *World {
 		r.Handle(rt.Pattern, h, nil, rt.Methods...)
 		m.Handle(rt.Pattern, h.ID, rt.Methods)
 	}
-	w := &World{R: r, H: front, M: m, c: c, done: map[int]bool{}, sib: sib}
+	w := &World{R: r, H: front, M: m, c: c, done: map[int]bool{}, added: map[int]bool{}, env: env, sib: sib}
 	w.Advance(0)
 	return w
 }
 
-// Advance applies the removals scheduled before request number i; the checks call it before every request.
+// Advance applies the removals and late registrations scheduled before request number i; the checks call it before every request.
 func (w *World) Advance(i int) {
 	for k, rt := range w.c.Routes {
 		if len(rt.Remove) > 0 && rt.RemoveAt <= i && !w.done[k] {
 			w.done[k] = true
 			w.R.Remove(rt.Pattern, rt.Remove...)
 			w.M.Remove(rt.Pattern, rt.Remove...)
+		}
+	}
+	for k, rt := range w.c.Routes {
+		if len(rt.Add) > 0 && rt.AddAt <= i && !w.added[k] {
+			w.added[k] = true
+			var ms []string
+			for _, m := range rt.Add {
+				if !w.M.Has(rt.Pattern, m) {
+					ms = append(ms, m)
+				}
+			}
+			if len(ms) > 0 {
+				h := w.env.NewH()
+				w.R.Handle(rt.Pattern, h, nil, ms...)
+				w.M.Handle(rt.Pattern, h.ID, ms)
+			}
 		}
 	}
 }
